@@ -428,7 +428,7 @@ func genSharedCachePersistCase(r *rand.Rand, cfg Cfg) Case {
 }
 
 func famPersist(f *FamCtx) {
-	f.Report.Rule = "1-5 cycles of (batch of inserts/updates/deletes, sometimes empty, sometimes delete-to-empty) -> MakeRoot on a recording store without cache (every Store call's name and bytes compared with the model's encoder and BLAKE2b) -> shape decoded by the harness from the stored bytes (C09 invariants evaluated in Go, graph compared with the model) -> reload through a JSON round-trip of the Root; one case in twenty: a single node whose entry count walks over 127 / 128 / 129, persisted and reloaded at each count; one case in four: a multi-level version loaded twice through one node cache, interior keys deleted in one tree, the other modified afterwards (or: the other deletes next to and then the same interior keys before the first is persisted), both persisted versions decoded and checked; or: a version persisted through the cache, the tree modified further (new keys of every layer, then updates and deletes of old keys) and every recorded root re-read through the cache before and after the next persist; non-trivial = reached height >= 1 and changed height"
+	f.Report.Rule = "1-5 cycles of (batch of inserts/updates/deletes, sometimes empty, sometimes delete-to-empty) -> MakeRoot on a recording store without cache (every Store call's name and bytes compared with the model's encoder and BLAKE2b) -> shape decoded by the harness from the stored bytes (C09 invariants evaluated in Go, graph compared with the model) -> reload through a JSON round-trip of the Root; one case in twenty: a single node whose entry count walks over 127 / 128 / 129, persisted and reloaded at each count; one case in four: a multi-level version loaded twice through one node cache, interior keys deleted in one tree, the other modified afterwards (or: the other deletes next to and then the same interior keys before the first is persisted), both persisted versions decoded and checked; one case in twelve: a version in the shape an interrupted Delete (or an earlier release) leaves — taller than warranted — persisted, reloaded and persisted again unmodified; or: a version persisted through the cache, the tree modified further (new keys of every layer, then updates and deletes of old keys) and every recorded root re-read through the cache before and after the next persist; non-trivial = reached height >= 1 and changed height"
 	f.Gen = func() Case {
 		if f.Rand.Intn(4) == 0 {
 			return genSharedCachePersistCase(f.Rand, RandCfg(f.Rand))
@@ -437,6 +437,13 @@ func famPersist(f *FamCtx) {
 	}
 	n := f.N(200, 8000)
 	for i := 0; i < n; i++ {
+		if i%12 == 11 {
+			// a version in the shape an earlier release (or an interrupted Delete) leaves — taller than
+			// its entries warrant, an entry-less top node over a child — persisted, reloaded, persisted
+			// again unmodified (nothing written, same root), decoded and checked
+			f.RunTreeCase(genInterruptedDeleteCase(f.Rand, RandCfg(f.Rand)), faultRunner, multiLevel)
+			continue
+		}
 		f.RunTreeCase(f.Gen(), exactRunner, multiLevel)
 	}
 }
